@@ -67,6 +67,11 @@ CLAIMED = {
         "own-address-only for every operation; bus_error_is_last for every interaction tree; disallowed_reply_is_last (request not acknowledged by the own address, anything but silence after data / count / pixels-complete / goodbye) for every operation; configure_success_confirmed and sendPages_success_confirmed (last transfer exchange is the own 'received' report); transfer_attempts_le_3; transfer_retry_only_after_own_failed (RetryShape); foreign_reply_is_unrelated / foreign_ack_is_unrelated. Tie: same reply-tree enumeration as C10 with the invariants evaluated directly on every recorded conversation and a re-run with foreign replies replaced by an unrelated frame.",
         "Same as C10.",
         "§6 C11"),
+    "C08": (
+        "Lean 4 composition theorem: controller interaction tree run against the virtual-sign model (runOn), loop invariant over the chunk stream (assemble_pages), reachable-state invariant; + differential correspondence end to end",
+        "configure_clean (from any sign state some history can produce, with any idle other signs on the bus: ok, sign = configured as t, no pages, others untouched), send_pages_exact (the sign then holds exactly the pages sent, in order, byte-identical; page-loaded / showing-pages; returns the matching flip style), configure_then_send, show_manual / load_manual / show_load_auto_noop (fuel >= 3), configureIfNeeded_not_ready / configureIfNeeded_ready, dims_ok for all 11 types. Tie: for all 11 types x both styles x sampled addresses, prior-state walks (mid-configuration, other type, abandoned or half-finished transfer, pages loaded/shown, ready-to-reset) then configure / configure-if-needed, send 0..3 random pages, show, load-next, send again, shut down through the real Sign on the real VirtualSignBus, compared with the model's runOn and with direct expectations on state / type / pages.",
+        "Hypotheses: the sign satisfies the reachable-state invariant (proved for every history: VSign.Reachable.inv), other signs are idle (not mid-transfer), fewer than 65536 chunks per transfer and pages of at most 65536 bytes (16-bit counter / offset limits of the real controller; true of all 11 sign types). std Vec / Rc<RefCell> plumbing is outside the model.",
+        "§6 C08"),
 }
 
 PENDING = {}
